@@ -3,6 +3,8 @@
    create another auto-resizing table (needs the mutex the handlers hold across the fork), use it, and destroy it - the destruction of an auto-resizing table is
    carried out by the worker thread, so the release of the table's memory (seen by a recording allocator) shows that a worker serves the queue.
    mode 0: the process never used call_rcu (no helper thread exists at the fork); mode 1: a call_rcu helper exists.  Every wait is bounded.
+   Nested generations: the child brackets a (would-be) fork of its own while its re-created worker is inside a resize (held there by a slow allocator): when
+   call_rcu_before_fork() returns the worker must be parked, not inside the resize - in the first process as well as in a fork child.
    Growth by lazy resize is deliberately not used as the sign of life: a lazy resize request can be lost for a reason unrelated to fork (DESIGN.md 9.3). */
 #define _GNU_SOURCE
 #define RCU_MEMBARRIER
@@ -25,6 +27,33 @@ static void *r_realloc(void *st, void *p, size_t sz){ (void)st; if(!p) __sync_fe
 static void *r_aligned(void *st, size_t al, size_t sz){ (void)st; void *p=0; if(posix_memalign(&p,al,sz)) return 0; __sync_fetch_and_add(&live,1); return p; }
 static void r_free(void *st, void *p){ (void)st; if(p){ __sync_fetch_and_sub(&live,1); free(p); } }
 static const struct cds_lfht_alloc rec_alloc = { r_malloc, r_calloc, r_realloc, r_aligned, r_free, 0 };
+/* slow allocator: the first allocation made by a thread other than the process's only application thread (= the resize worker, inside a resize) is held for a while */
+static pthread_t app_thread; static volatile int slow_armed, inworker, worker_seen;
+static void *s_calloc(void *st, size_t n, size_t sz){ (void)st;
+  if(slow_armed && !pthread_equal(pthread_self(),app_thread)){ slow_armed=0; worker_seen=1; inworker=1; cmm_smp_mb(); usleep(400000); cmm_smp_mb(); inworker=0; }
+  return calloc(n,sz); }
+static void *s_malloc(void *st, size_t sz){ (void)st; return malloc(sz); }
+static void *s_realloc(void *st, void *p, size_t sz){ (void)st; return realloc(p,sz); }
+static void *s_aligned(void *st, size_t al, size_t sz){ (void)st; void *p=0; return posix_memalign(&p,al,sz)?0:p; }
+static void s_free(void *st, void *p){ (void)st; free(p); }
+static const struct cds_lfht_alloc slow_alloc = { s_malloc, s_calloc, s_realloc, s_aligned, s_free, 0 };
+/* the fork bracket with the worker busy: returns 1 on a violation; *busy tells whether the worker was indeed caught inside a resize (a lazy resize request may be lost, see DESIGN.md 9.3) */
+static struct ent eb[4*NN];
+static int busy_bracket(const char *who, int round, int *busy){ int b=0;
+  struct cds_lfht *h3=_cds_lfht_new_with_alloc(1,1,0,CDS_LFHT_AUTO_RESIZE,NULL,&rcu_flavor,&slow_alloc,NULL);
+  if(!h3){ printf("BUG %s round %d: cds_lfht_new failed\n",who,round); return 1; }
+  worker_seen=0; inworker=0; cmm_smp_mb(); slow_armed=1;
+  rcu_read_lock(); for(int i=0;i<4*NN;i++){ eb[i].key=i; cds_lfht_node_init(&eb[i].n); cds_lfht_add(h3,(unsigned long)i*2654435761UL,&eb[i].n); } rcu_read_unlock();
+  int k; for(k=0;k<2000 && !inworker;k++) usleep(500);
+  *busy = inworker;
+  call_rcu_before_fork();
+  cmm_smp_mb();
+  if(inworker){ printf("BUG %s round %d: call_rcu_before_fork() returned while the hash table's resize worker is inside a resize (not parked): fork() would copy its locks and its reader registration\n",who,round); b=1; }
+  call_rcu_after_fork_parent();
+  slow_armed=0;
+  rcu_read_lock(); for(int i=0;i<4*NN;i++) cds_lfht_del(h3,&eb[i].n); rcu_read_unlock(); synchronize_rcu();
+  if(cds_lfht_destroy(h3,NULL)){ printf("BUG %s round %d: destroy of the slow table failed\n",who,round); b=1; }
+  return b; }
 static int use_tables(struct cds_lfht *ht, struct ent *e, const char *who, int round){ int b=0; (void)ht;
   long live0=__sync_fetch_and_add(&live,0);
   struct cds_lfht *h2=_cds_lfht_new_with_alloc(1,1,0,CDS_LFHT_AUTO_RESIZE,NULL,&rcu_flavor,&rec_alloc,NULL);      /* takes the mutex the fork handlers hold across the fork */
@@ -39,7 +68,7 @@ static int use_tables(struct cds_lfht *ht, struct ent *e, const char *who, int r
   if(k==250){ printf("BUG %s round %d: the memory of a destroyed auto-resize table was not released within 5 s (%ld blocks outstanding): no worker thread serves the hash table work queue\n",who,round,__sync_fetch_and_add(&live,0)-live0); b=1; }
   return b; }
 int main(int argc,char**argv){ int rounds=argc>1?atoi(argv[1]):3, mode=argc>2?atoi(argv[2]):0; int bad=0;
-  rcu_register_thread();
+  rcu_register_thread(); app_thread=pthread_self(); int nbusy=0, nbr=0;
   struct ent *e=calloc(NN,sizeof *e);
   if(mode){ static struct rcu_head h; call_rcu(&h,cbf); rcu_barrier(); }
   struct cds_lfht *ht=cds_lfht_new(1,1,0,CDS_LFHT_AUTO_RESIZE,NULL);
@@ -48,9 +77,12 @@ int main(int argc,char**argv){ int rounds=argc>1?atoi(argv[1]):3, mode=argc>2?at
     fflush(stdout); call_rcu_before_fork(); pid_t p=fork();
     if(p==0){ alarm(20); call_rcu_after_fork_child();
       rcu_read_lock(); rcu_read_unlock(); synchronize_rcu();
-      int b=use_tables(ht,e,"child",r); fflush(stdout); _exit(b?3:0); }
+      int b=use_tables(ht,e,"child",r); int cb=0; if(!b){ b=busy_bracket("child",r,&cb); if(!b) b=use_tables(ht,e,"child (after its own fork bracket)",r); }
+      printf("child round %d busy-worker bracket %s\n",r,cb?"exercised":"not exercised"); fflush(stdout); _exit(b?3:0); }
     call_rcu_after_fork_parent();
     bad|=use_tables(ht,e,"parent",r);
+    { int pb=0; bad|=busy_bracket("parent",r,&pb); nbusy+=pb; nbr++; }
     int st=wait_child(p,25); if(st==-1){ printf("BUG child round %d: hangs (killed after 25 s)\n",r); bad=1; } else if(WIFSIGNALED(st)){ printf("BUG child round %d: killed by signal %d (14 = did not finish within 20 s)\n",r,WTERMSIG(st)); bad=1; } else if(WEXITSTATUS(st)){ printf("BUG child round %d: exit status %d\n",r,WEXITSTATUS(st)); bad=1; }
     printf("round %d mode %d %s\n",r,mode,bad?"failed":"ok"); }
+  printf("parent busy-worker brackets exercised %d of %d\n",nbusy,nbr);
   fflush(stdout); _exit(bad); }
